@@ -10,7 +10,7 @@ Helper lemmas and the two tactics used to prove that the interpreter `PQ.Src.exe
 * `src_eval [extra]` : symbolic evaluation — `simp only` with the equations of the interpreter, the monad laws of
   `Except`, register look-ups, and the `extra` lemmas (the generated terms to unfold, the model functions to unfold,
   call lemmas of callees already tied).
-  A `while` is NOT unfolded (the equations `es1 … es34` = `Src.execStep.eq_1 … eq_34` are listed without `eq_9`, the one for `.while`;
+  A `while` is NOT unfolded (the equations `es1 … es67` = `Src.execStep.eq_1 … eq_67` are listed without `eq_9`, the one for `.while`;
   should the constructor order in `PQ/Model/Src.lean` change, adapt the list): loops are handled by per-loop lemmas.
 * `src_close` : closes an equation between two `do` blocks in `R` that perform the same reads in the same order:
   congruence under binds, case splits on the conditions, `simp_all` at the leaves.
@@ -48,6 +48,11 @@ theorem unwrapO_some {α : Type} (v : α) (site : Nat) : unwrapO (some v) site =
 
 theorem getU_ok_iff {α : Type} (a : Array α) (i site : Nat) (v : α) : getU a i site = .ok v ↔ a[i]? = some v := by
   unfold getU; split <;> simp_all
+
+theorem getElem?_some_lt {α : Type} {a : Array α} {i : Nat} {v : α} (h : a[i]? = some v) : i < a.size := by
+  cases Nat.lt_or_ge i a.size with
+  | inl hlt => exact hlt
+  | inr hge => rw [Array.getElem?_eq_none hge] at h; cases h
 
 /-- congruence under a `get_unchecked` read: the value read is the same at every site -/
 theorem getU_bind_congr {α β : Type} {a : Array α} {i site : Nat} {f g : α → R β}
@@ -120,11 +125,12 @@ def fin (r : St P × Flow P) : R (Store P × Val P) :=
 @[simp] theorem fin_ret (st : St P) (v : Val P) : fin (st, Flow.ret v) = pure (st.s, v) := rfl
 
 theorem callWith_eq (ex : Stmt → St P → R (St P × Flow P)) (prog : Prog) (f : FnId) (s : Store P)
-    (nargs : List Nat) (pargs : List P) :
-    callWith ex prog f s nargs pargs =
+    (nargs : List Nat) (pargs : List P) (vargs : List (Val P)) :
+    callWith ex prog f s nargs pargs vargs =
       match prog f with
       | none => .error stuck
-      | some fn => ex fn.body { s := s, n := bindN fn.nparams nargs, p := bindP fn.pparams pargs } >>= fin := by
+      | some fn => ex fn.body { s := s, n := bindN fn.nparams nargs, p := bindP fn.pparams pargs,
+                                v := bindV fn.vparams vargs } >>= fin := by
   unfold callWith
   cases prog f with
   | none => rfl
@@ -367,14 +373,47 @@ theorem es31 [LT P] [DecidableLT P] : type_of% (@Src.execStep.eq_31 P _ _) := @S
 theorem es32 [LT P] [DecidableLT P] : type_of% (@Src.execStep.eq_32 P _ _) := @Src.execStep.eq_32 P _ _
 theorem es33 [LT P] [DecidableLT P] : type_of% (@Src.execStep.eq_33 P _ _) := @Src.execStep.eq_33 P _ _
 theorem es34 [LT P] [DecidableLT P] : type_of% (@Src.execStep.eq_34 P _ _) := @Src.execStep.eq_34 P _ _
+theorem es35 [LT P] [DecidableLT P] : type_of% (@Src.execStep.eq_35 P _ _) := @Src.execStep.eq_35 P _ _
+theorem es36 [LT P] [DecidableLT P] : type_of% (@Src.execStep.eq_36 P _ _) := @Src.execStep.eq_36 P _ _
+theorem es37 [LT P] [DecidableLT P] : type_of% (@Src.execStep.eq_37 P _ _) := @Src.execStep.eq_37 P _ _
+theorem es38 [LT P] [DecidableLT P] : type_of% (@Src.execStep.eq_38 P _ _) := @Src.execStep.eq_38 P _ _
+theorem es39 [LT P] [DecidableLT P] : type_of% (@Src.execStep.eq_39 P _ _) := @Src.execStep.eq_39 P _ _
+theorem es40 [LT P] [DecidableLT P] : type_of% (@Src.execStep.eq_40 P _ _) := @Src.execStep.eq_40 P _ _
+theorem es41 [LT P] [DecidableLT P] : type_of% (@Src.execStep.eq_41 P _ _) := @Src.execStep.eq_41 P _ _
+theorem es42 [LT P] [DecidableLT P] : type_of% (@Src.execStep.eq_42 P _ _) := @Src.execStep.eq_42 P _ _
+theorem es43 [LT P] [DecidableLT P] : type_of% (@Src.execStep.eq_43 P _ _) := @Src.execStep.eq_43 P _ _
+theorem es44 [LT P] [DecidableLT P] : type_of% (@Src.execStep.eq_44 P _ _) := @Src.execStep.eq_44 P _ _
+theorem es45 [LT P] [DecidableLT P] : type_of% (@Src.execStep.eq_45 P _ _) := @Src.execStep.eq_45 P _ _
+theorem es46 [LT P] [DecidableLT P] : type_of% (@Src.execStep.eq_46 P _ _) := @Src.execStep.eq_46 P _ _
+theorem es47 [LT P] [DecidableLT P] : type_of% (@Src.execStep.eq_47 P _ _) := @Src.execStep.eq_47 P _ _
+theorem es48 [LT P] [DecidableLT P] : type_of% (@Src.execStep.eq_48 P _ _) := @Src.execStep.eq_48 P _ _
+theorem es49 [LT P] [DecidableLT P] : type_of% (@Src.execStep.eq_49 P _ _) := @Src.execStep.eq_49 P _ _
+theorem es50 [LT P] [DecidableLT P] : type_of% (@Src.execStep.eq_50 P _ _) := @Src.execStep.eq_50 P _ _
+theorem es51 [LT P] [DecidableLT P] : type_of% (@Src.execStep.eq_51 P _ _) := @Src.execStep.eq_51 P _ _
+theorem es52 [LT P] [DecidableLT P] : type_of% (@Src.execStep.eq_52 P _ _) := @Src.execStep.eq_52 P _ _
+theorem es53 [LT P] [DecidableLT P] : type_of% (@Src.execStep.eq_53 P _ _) := @Src.execStep.eq_53 P _ _
+theorem es54 [LT P] [DecidableLT P] : type_of% (@Src.execStep.eq_54 P _ _) := @Src.execStep.eq_54 P _ _
+theorem es55 [LT P] [DecidableLT P] : type_of% (@Src.execStep.eq_55 P _ _) := @Src.execStep.eq_55 P _ _
+theorem es56 [LT P] [DecidableLT P] : type_of% (@Src.execStep.eq_56 P _ _) := @Src.execStep.eq_56 P _ _
+theorem es57 [LT P] [DecidableLT P] : type_of% (@Src.execStep.eq_57 P _ _) := @Src.execStep.eq_57 P _ _
+theorem es58 [LT P] [DecidableLT P] : type_of% (@Src.execStep.eq_58 P _ _) := @Src.execStep.eq_58 P _ _
+theorem es59 [LT P] [DecidableLT P] : type_of% (@Src.execStep.eq_59 P _ _) := @Src.execStep.eq_59 P _ _
+theorem es60 [LT P] [DecidableLT P] : type_of% (@Src.execStep.eq_60 P _ _) := @Src.execStep.eq_60 P _ _
+theorem es61 [LT P] [DecidableLT P] : type_of% (@Src.execStep.eq_61 P _ _) := @Src.execStep.eq_61 P _ _
+theorem es62 [LT P] [DecidableLT P] : type_of% (@Src.execStep.eq_62 P _ _) := @Src.execStep.eq_62 P _ _
+theorem es63 [LT P] [DecidableLT P] : type_of% (@Src.execStep.eq_63 P _ _) := @Src.execStep.eq_63 P _ _
+theorem es64 [LT P] [DecidableLT P] : type_of% (@Src.execStep.eq_64 P _ _) := @Src.execStep.eq_64 P _ _
+theorem es65 [LT P] [DecidableLT P] : type_of% (@Src.execStep.eq_65 P _ _) := @Src.execStep.eq_65 P _ _
+theorem es66 [LT P] [DecidableLT P] : type_of% (@Src.execStep.eq_66 P _ _) := @Src.execStep.eq_66 P _ _
+theorem es67 [LT P] [DecidableLT P] : type_of% (@Src.execStep.eq_67 P _ _) := @Src.execStep.eq_67 P _ _
 
 /-- symbolic evaluation of the interpreter -/
 syntax "src_eval" (" [" Lean.Parser.Tactic.simpLemma,* "]")? : tactic
 macro_rules
   | `(tactic| src_eval) => `(tactic| src_eval [])
   | `(tactic| src_eval [$ls,*]) => `(tactic|
-      simp only [PQ.SrcEquiv.es1, PQ.SrcEquiv.es2, PQ.SrcEquiv.es3, PQ.SrcEquiv.es4, PQ.SrcEquiv.es5, PQ.SrcEquiv.es6, PQ.SrcEquiv.es7, PQ.SrcEquiv.es8, PQ.SrcEquiv.es10, PQ.SrcEquiv.es11, PQ.SrcEquiv.es12, PQ.SrcEquiv.es13, PQ.SrcEquiv.es14, PQ.SrcEquiv.es15, PQ.SrcEquiv.es16, PQ.SrcEquiv.es17, PQ.SrcEquiv.es18, PQ.SrcEquiv.es19, PQ.SrcEquiv.es20, PQ.SrcEquiv.es21, PQ.SrcEquiv.es22, PQ.SrcEquiv.es23, PQ.SrcEquiv.es24, PQ.SrcEquiv.es25, PQ.SrcEquiv.es26, PQ.SrcEquiv.es27, PQ.SrcEquiv.es28, PQ.SrcEquiv.es29, PQ.SrcEquiv.es30, PQ.SrcEquiv.es31, PQ.SrcEquiv.es32, PQ.SrcEquiv.es33, PQ.SrcEquiv.es34, Src.evalN, Src.evalNs, Src.evalP, Src.evalPs,
-        Src.evalB, Src.bindN, Src.bindP, Src.upd, Src.St.setS, Src.St.setN, Src.St.setP, Src.St.setV,
+      simp only [PQ.SrcEquiv.es1, PQ.SrcEquiv.es2, PQ.SrcEquiv.es3, PQ.SrcEquiv.es4, PQ.SrcEquiv.es5, PQ.SrcEquiv.es6, PQ.SrcEquiv.es7, PQ.SrcEquiv.es8, PQ.SrcEquiv.es10, PQ.SrcEquiv.es11, PQ.SrcEquiv.es12, PQ.SrcEquiv.es13, PQ.SrcEquiv.es14, PQ.SrcEquiv.es15, PQ.SrcEquiv.es16, PQ.SrcEquiv.es17, PQ.SrcEquiv.es18, PQ.SrcEquiv.es19, PQ.SrcEquiv.es20, PQ.SrcEquiv.es21, PQ.SrcEquiv.es22, PQ.SrcEquiv.es23, PQ.SrcEquiv.es24, PQ.SrcEquiv.es25, PQ.SrcEquiv.es26, PQ.SrcEquiv.es27, PQ.SrcEquiv.es28, PQ.SrcEquiv.es29, PQ.SrcEquiv.es30, PQ.SrcEquiv.es31, PQ.SrcEquiv.es32, PQ.SrcEquiv.es33, PQ.SrcEquiv.es34, PQ.SrcEquiv.es35, PQ.SrcEquiv.es36, PQ.SrcEquiv.es37, PQ.SrcEquiv.es38, PQ.SrcEquiv.es39, PQ.SrcEquiv.es40, PQ.SrcEquiv.es41, PQ.SrcEquiv.es42, PQ.SrcEquiv.es43, PQ.SrcEquiv.es44, PQ.SrcEquiv.es45, PQ.SrcEquiv.es46, PQ.SrcEquiv.es47, PQ.SrcEquiv.es48, PQ.SrcEquiv.es49, PQ.SrcEquiv.es50, PQ.SrcEquiv.es51, PQ.SrcEquiv.es52, PQ.SrcEquiv.es53, PQ.SrcEquiv.es54, PQ.SrcEquiv.es55, PQ.SrcEquiv.es56, PQ.SrcEquiv.es57, PQ.SrcEquiv.es58, PQ.SrcEquiv.es59, PQ.SrcEquiv.es60, PQ.SrcEquiv.es61, PQ.SrcEquiv.es62, PQ.SrcEquiv.es63, PQ.SrcEquiv.es64, PQ.SrcEquiv.es65, PQ.SrcEquiv.es66, PQ.SrcEquiv.es67, Src.evalN, Src.evalNs, Src.evalP, Src.evalPs, Src.evalVs,
+        Src.evalB, Src.bindN, Src.bindP, Src.bindV, Src.upd, Src.St.setS, Src.St.setN, Src.St.setP, Src.St.setV,
         bind_assoc, pure_bind, map_eq_pure_bind, Function.comp, PQ.SrcEquiv.ite_bind, PQ.SrcEquiv.error_bind,
         PQ.SrcEquiv.ok_bind, PQ.SrcEquiv.fin_normal, PQ.SrcEquiv.fin_ret, decide_eq_true_eq,
         PQ.SrcEquiv.prioAt_tick, PQ.SrcEquiv.size_tick, PQ.SrcEquiv.heap_tick, PQ.SrcEquiv.qp_tick, PQ.SrcEquiv.map_tick,
